@@ -263,11 +263,104 @@ fn case(tape: &[u8], rec: &Rec) -> Verdict {
     Ok(())
 }
 
-pub fn replay(_ctx: &Ctx, check: &str, tape: &[u8]) -> Verdict {
+
+/// The same claims through the command line: the definition is written to a file (with or without a
+/// main component after it) and analysed by the real binary under `--curve`; the `constant branch
+/// condition` findings displayed must be the ones the in-process run under that curve yields.
+fn cli_case(ctx: &Ctx, tape: &[u8], rec: &Rec) -> Verdict {
+    let mut t = Tape::new(tape);
+    let c = gen_sem_case(&mut t, SemOpts::default());
+    let Ok(ssa) = lift_ssa(&c) else { return Ok(()) };
+    let Ok(reports) = run_passes(&ssa) else { return Ok(()) };
+    let line_col = |off: usize| {
+        let before = &c.r.src[..off.min(c.r.src.len())];
+        (1 + before.matches('\n').count(), 1 + before.len() - before.rfind('\n').map(|i| i + 1).unwrap_or(0))
+    };
+    let mut want: std::collections::BTreeSet<(usize, usize, bool)> = std::collections::BTreeSet::new();
+    for r in &reports {
+        if r.id() == "CS0009" {
+            if let Some(l) = r.primary().first() {
+                let (line, col) = line_col(l.range.start);
+                want.insert((line, col, l.message.contains("always true")));
+            }
+        }
+    }
+    let with_main = t.chance(170);
+    let mut src = c.r.src.clone();
+    let own_lines = 1 + src.matches('\n').count();
+    // the helper functions it calls and stubs for the templates it instantiates come after it
+    src.push('\n');
+    for h in &c.helpers {
+        src.push_str(&crate::gen::print::render_plain(&crate::gen::print::print_def(h, false)).src);
+        src.push('\n');
+    }
+    for name in &c.templates {
+        src.push_str(&format!("template {name}(n) {{ signal input in; signal output out; out <== in; }}\n"));
+    }
+    if with_main {
+        src.push_str("\ntemplate ZMain() { signal input a; signal output b; b <== a; }\ncomponent main = ZMain();\n");
+    }
+    let dir = ctx.scratch.join(format!("c06-{:?}", std::thread::current().id()).replace(['(', ')'], ""));
+    let _ = std::fs::create_dir_all(&dir);
+    let path = dir.join("a.circom");
+    std::fs::write(&path, &src).map_err(|e| Bad::new(format!("INFRA write: {e}")))?;
+    let mut o = crate::binrun::RunOpts::files(&[&path]).level("info");
+    o.curve = Some(if t.chance(128) { c.prime_name.to_string() } else { c.prime_name.to_ascii_lowercase() });
+    let started = Instant::now();
+    let out = crate::binrun::run(&ctx.repo_bin, &o);
+    let slow = started.elapsed().as_secs() >= 4;
+    let _ = std::fs::remove_dir_all(&dir);
+    let out = out.map_err(|e| Bad::new(format!("INFRA {e}")))?;
+    let render = || format!("curve {}\n{src}\n--- stdout\n{}", c.prime_name, out.stdout);
+    if out.signal.is_some() || !matches!(out.status, Some(0) | Some(1)) {
+        return Err(Bad::new(format!("the run did not end normally: status {:?} signal {:?}", out.status, out.signal)).sig("C06:cli-crash").rendered(render()));
+    }
+    // `┌─ path:line:col` followed by the label of the finding
+    let mut got: std::collections::BTreeSet<(usize, usize, bool)> = std::collections::BTreeSet::new();
+    let mut loc: Option<(usize, usize)> = None;
+    for l in out.stdout.lines() {
+        if let Some(pos) = l.find("┌─ ") {
+            let mut it = l[pos + "┌─ ".len()..].rsplitn(3, ':');
+            let col = it.next().and_then(|x| x.trim().parse().ok());
+            let line = it.next().and_then(|x| x.trim().parse().ok());
+            loc = line.zip(col);
+        } else if l.contains("This condition is always") {
+            if let Some((line, col)) = loc.filter(|(line, _)| *line <= own_lines) {
+                got.insert((line, col, l.contains("always true")));
+            }
+        }
+    }
+    rec.class("cli_programs");
+    rec.class(&format!("cli_prime:{}", c.prime_name));
+    if with_main {
+        rec.class("cli_programs_with_main_component");
+    }
+    rec.class_n("cli_constant_condition_findings_compared", want.len() as u64);
+    if !want.is_empty() {
+        rec.nontrivial(fnv(src.as_bytes()));
+    }
+    if slow {
+        // the binary's propagation may have been cut by its time box
+        rec.class("cli_programs_not_compared_slow_run");
+        return Ok(());
+    }
+    if got != want {
+        return Err(Bad::new(format!(
+            "under --curve {} the binary displays the constant-condition findings {:?} (line, column, always true), the analysis under that curve's prime yields {:?}",
+            c.prime_name, got, want
+        ))
+        .sig("C06:cli-claims-differ")
+        .rendered(render()));
+    }
+    Ok(())
+}
+
+pub fn replay(ctx: &Ctx, check: &str, tape: &[u8]) -> Verdict {
     let stats = Stats::new();
     let rec = Rec::new(&stats, false);
     match check {
         "value_claims" => case(tape, &rec),
+        "cli_claims" => cli_case(ctx, tape, &rec),
         _ => Err(Bad::new(format!("unknown check {check}"))),
     }
 }
@@ -310,13 +403,15 @@ pub fn run(ctx: &Ctx) -> i32 {
     }
     let fails = run_tapes_opts(ctx, "value_claims", ctx.tier.pick(12_000, 300_000), 4000, 250, &stats, case);
     outcome.absorb(&known, fails);
+    let fails = run_tapes_opts(ctx, "cli_claims", ctx.tier.pick(1_500, 20_000), 4000, 250, &stats, |tape, rec| cli_case(ctx, tape, rec));
+    outcome.absorb(&known, fails);
     finish(
         ctx,
         &stats,
         &outcome,
         EvidenceSpec {
             level: "exploration",
-            rule: "executable functions and templates from the `sem` profile (all 23 operators, literals in [0,p) biased to boundary values, nested loops, branches, shadowing, arrays, compound assignments, pure helper functions, signals, Num2Bits/Bits2Num instantiations) are lifted and converted to SSA under a generated curve. A reference interpreter executes the generator's own AST under Circom's documented field semantics for 12 generated valuations of parameters and signals (boundary and random values). For every IR expression node and substitution carrying a constant (field element or boolean) that maps to a generator node by kind and source span, every value recorded at any dynamic evaluation of that node must equal the claimed constant (as a field element; booleans as 1/0). `constant branch condition` findings are checked against the recorded truth values of that condition, and a Num2Bits/Bits2Num size that is not flagged under BN254 must be < 254 in every run. Non-trivial = program with a claimed constant on a node that was evaluated at least twice; distinct by source hash. Valuations cut short by a runtime error (division by zero, fuel) still contribute their prefix.",
+            rule: "executable functions and templates from the `sem` profile (all 23 operators, literals in [0,p) biased to boundary values, nested loops, branches, shadowing, arrays, compound assignments, pure helper functions, signals, Num2Bits/Bits2Num instantiations) are lifted and converted to SSA under a generated curve. A reference interpreter executes the generator's own AST under Circom's documented field semantics for 12 generated valuations of parameters and signals (boundary and random values). For every IR expression node and substitution carrying a constant (field element or boolean) that maps to a generator node by kind and source span, every value recorded at any dynamic evaluation of that node must equal the claimed constant (as a field element; booleans as 1/0). `constant branch condition` findings are checked against the recorded truth values of that condition, and a Num2Bits/Bits2Num size that is not flagged under BN254 must be < 254 in every run. Non-trivial = program with a claimed constant on a node that was evaluated at least twice; distinct by source hash. Valuations cut short by a runtime error (division by zero, fuel) still contribute their prefix. Second sub-check (`cli_claims`): definitions are written to a file, followed by their helper functions, stubs of the templates they instantiate and, in two thirds of the cases, a main component, and analysed by the real binary under `--curve <name>` (either case); the constant-condition findings it displays (line, column, always true/false) must equal those of the in-process analysis under that curve's prime.",
             assumptions: vec![
                 "reference semantics: harness/src/field.rs (documentation-derived, cross-checked against circom_algebra by C16) and harness/src/interp.rs".into(),
                 "locals are read only where definitely assigned (the known class F13, declared-but-unassigned locals merged at a join, is excluded by construction)".into(),
